@@ -4,6 +4,7 @@ package main
 // cutting at invariants. See DESIGN.md 2.1–2.4.
 
 import (
+	"go/constant"
 	"fmt"
 	"regexp"
 	"go/token"
@@ -1501,6 +1502,16 @@ func (e *Env) autoRangeInv(fr *Frame, li *loopInfo, st *State) string {
 			break
 		}
 		if phi.Comment != "rangeindex" {
+			// a counting loop variable (starts at a constant, only ever incremented by a positive
+			// constant, compared with `<` / `<=` inside the loop): it never drops below its start
+			if lo, ok := e.countingPhi(li, phi); ok {
+				if v, ok := fr.regs[phi].(*Sc); ok && v.Sort == sInt {
+					out = append(out, sx("<=", lo, v.T))
+					if ub := e.countingUpper(fr, li, phi, st); ub != "" {
+						out = append(out, mkOr(sx("<=", v.T, ub), sx("<", ub, lo)))
+					}
+				}
+			}
 			continue
 		}
 		v, ok := fr.regs[phi].(*Sc)
@@ -1529,6 +1540,144 @@ func (e *Env) autoRangeInv(fr *Frame, li *loopInfo, st *State) string {
 		}
 	}
 	return mkAnd(out...)
+}
+
+// countingPhi recognises `for i := c; i < n; i += k` style header phis.
+func (e *Env) countingPhi(li *loopInfo, phi *ssa.Phi) (string, bool) {
+	if b, ok := phi.Type().Underlying().(*types.Basic); !ok || b.Info()&types.IsInteger == 0 {
+		return "", false
+	}
+	lo := ""
+	for i, edge := range phi.Edges {
+		pred := li.header.Preds[i]
+		if !li.body[pred] {
+			c, ok := edge.(*ssa.Const)
+			if !ok || c.Value == nil {
+				return "", false
+			}
+			n, exact := constant.Int64Val(constant.ToInt(c.Value))
+			if !exact || (lo != "" && lo != fmt.Sprint(n)) {
+				return "", false
+			}
+			lo = fmt.Sprint(n)
+			if n < 0 {
+				lo = fmt.Sprintf("(- %d)", -n)
+			}
+			continue
+		}
+		add, ok := edge.(*ssa.BinOp)
+		if !ok || add.Op != token.ADD || add.X != ssa.Value(phi) {
+			return "", false
+		}
+		k, ok := add.Y.(*ssa.Const)
+		if !ok || k.Value == nil {
+			return "", false
+		}
+		if n, exact := constant.Int64Val(constant.ToInt(k.Value)); !exact || n <= 0 {
+			return "", false
+		}
+	}
+	if lo == "" {
+		return "", false
+	}
+	// compared with < or <= somewhere in the loop (so the increment cannot wrap)
+	for blk := range li.body {
+		for _, ins := range blk.Instrs {
+			if b, ok := ins.(*ssa.BinOp); ok && (b.Op == token.LSS || b.Op == token.LEQ) && b.X == ssa.Value(phi) {
+				return lo, true
+			}
+		}
+	}
+	return "", false
+}
+
+// countingUpper: for `for i := c; i < Y; i++` whose header compares the phi with Y, where Y
+// is either defined outside the loop or computed by the side-effect-free prefix of the header
+// (e.g. len(s.f) re-read every iteration), the term of Y in state st; "" if not of that shape.
+func (e *Env) countingUpper(fr *Frame, li *loopInfo, phi *ssa.Phi, st *State) (ub string) {
+	// step must be 1
+	for i, edge := range phi.Edges {
+		if !li.body[li.header.Preds[i]] {
+			continue
+		}
+		add, ok := edge.(*ssa.BinOp)
+		if !ok {
+			return ""
+		}
+		k, ok := add.Y.(*ssa.Const)
+		if !ok || k.Value == nil {
+			return ""
+		}
+		if n, exact := constant.Int64Val(constant.ToInt(k.Value)); !exact || n != 1 {
+			return ""
+		}
+	}
+	var cmp *ssa.BinOp
+	for _, ins := range li.header.Instrs {
+		if b, ok := ins.(*ssa.BinOp); ok && b.Op == token.LSS && b.X == ssa.Value(phi) {
+			cmp = b
+		}
+	}
+	if cmp == nil {
+		return ""
+	}
+	if iff, ok := li.header.Instrs[len(li.header.Instrs)-1].(*ssa.If); !ok || iff.Cond != ssa.Value(cmp) {
+		return ""
+	}
+	if yi, ok := cmp.Y.(ssa.Instruction); !ok || !li.body[yi.Block()] {
+		if bv, ok := e.get(fr, cmp.Y, st).(*Sc); ok && bv.Sort == sInt {
+			return bv.T
+		}
+		return ""
+	}
+	// speculative evaluation of the header prefix (loads, field addresses, len/cap only)
+	defer func() {
+		if r := recover(); r != nil {
+			ub = ""
+		}
+	}()
+	saved := map[ssa.Value]Value{}
+	var touched []ssa.Value
+	tmp := st.clone()
+	e.dry++
+	defer func() {
+		e.dry--
+		for _, v := range touched {
+			if old, had := saved[v]; had {
+				fr.regs[v] = old
+			} else {
+				delete(fr.regs, v)
+			}
+		}
+	}()
+	for _, ins := range li.header.Instrs {
+		if _, isPhi := ins.(*ssa.Phi); isPhi {
+			continue
+		}
+		if ins == ssa.Instruction(cmp) {
+			break
+		}
+		switch x := ins.(type) {
+		case *ssa.UnOp, *ssa.FieldAddr, *ssa.Field, *ssa.DebugRef:
+		case *ssa.Call:
+			if b, ok := x.Call.Value.(*ssa.Builtin); !ok || (b.Name() != "len" && b.Name() != "cap") {
+				return ""
+			}
+		default:
+			return ""
+		}
+		if v, ok := ins.(ssa.Value); ok {
+			if old, had := fr.regs[v]; had {
+				saved[v] = old
+			}
+			touched = append(touched, v)
+		}
+		e.execInstr(fr, ins, tmp)
+	}
+	if bv, ok := e.get(fr, cmp.Y, tmp).(*Sc); ok && bv.Sort == sInt {
+		return bv.T
+	}
+	return ""
 }
 
 func (e *Env) assumeShapeIf(cond string, v Value) {
